@@ -128,12 +128,15 @@ fn check_clear_seq(c: &ClearSeq, info: &mut Info) -> Result<(), String> {
     Ok(())
 }
 
+crate::long_sub!(run_long_history, [3, 4]);
+
 pub fn def() -> PropDef {
     PropDef {
         id: "C17",
         rule: "points of the full curve groups E(Fq), E'(Fq2): identity, subgroup points, uniform full-curve points, points of each small prime order dividing the cofactor, of order l*r, negated, same-y, in generated Jacobian representatives; a second point for additivity. Oracle: model [h_eff]P with h_eff = 1 - x resp. 3(x^2-1)h2 computed from x, model subgroup test, additivity with the model law, chain_z(P) = [|x|]P and chain_h2_eff(P) = [3(x^2-1)h2]P through the hook wrappers on a third of the cases. Non-trivial = P outside the order-r subgroup; distinct = distinct cases",
         needs_pairing: false,
         subs: vec![
+            Box::new(crate::engine::EnumSub { name: "long-history", rule: super::longhist::RULE, run: run_long_history, replay: super::longhist::replay, exhaustive: false }),
             Box::new(Sub { name: "g1-clear-h", rule: "G1 clear_h vs model [0xd201000000010001]P", quick: 3_000, thorough: 40_000, strategy: || boxed(clear_case_strategy(0)), check: check_clear_any }),
             Box::new(Sub { name: "related-sequences", rule: "the same point in other representatives / negated, cleared back to back, each compared with the model", quick: 300, thorough: 15_000, strategy: || boxed(clear_seq_strategy()), check: check_clear_seq }),
             Box::new(Sub { name: "g2-clear-h", rule: "G2 clear_h vs model [3(x^2-1)h2]P", quick: 500, thorough: 8_000, strategy: || boxed(clear_case_strategy(1)), check: check_clear_any }),
